@@ -4,12 +4,12 @@ import (
 	"fmt"
 	"go/ast"
 	"os"
+	"regexp"
 	"go/constant"
 	"go/token"
 	"go/types"
 	"math/big"
 	"sort"
-	"strings"
 
 	"golang.org/x/tools/go/ssa"
 )
@@ -71,8 +71,12 @@ func (x *Exec) count(kind string) int {
 	return x.counters[kind]
 }
 
+var modPathRe = regexp.MustCompile(`github\.com/paulsonkoly/chess-3/(?:[A-Za-z0-9_\-]+/)*([A-Za-z0-9_]+)\.`)
+
+// shortFuncName renders a function name with package paths of the repository shortened to the
+// package name: (*board.Board).MakeMove, epd.shuffleIndex, chess.Clamp[int64].
 func shortFuncName(fn *ssa.Function) string {
-	return strings.ReplaceAll(fn.String(), modulePrefix, "")
+	return modPathRe.ReplaceAllString(fn.String(), "$1.")
 }
 
 const modulePrefix = "github.com/paulsonkoly/chess-3/"
@@ -357,7 +361,12 @@ func (x *Exec) runFunc(fn *ssa.Function, args []Value, bind []Value, st State, t
 	}
 	for i, fv := range fn.FreeVars {
 		in.env[fv] = bind[i]
-		in.names[fv.Name()] = bind[i]
+		if _, isPtr := bind[i].(Ptr); isPtr {
+			// captured by reference: the name denotes the variable, the free variable is its address
+			in.names["&"+fv.Name()] = bind[i]
+		} else {
+			in.names[fv.Name()] = bind[i]
+		}
 	}
 	all := map[*ssa.BasicBlock]bool{}
 	for _, b := range fn.Blocks {
